@@ -78,6 +78,9 @@ def get_finder_for(search_sid, config=None):  # get finder by Sid and optional c
 
 #########################################################
 # Config for GetFromAll
+_getters_by_type = {}  # type: ignore
+
+
 def get_getter_for(sid, attribute=None, config=None):
     """
     Configuration used by GetFromAll, to define which Getter is used for a given Sid or Search Sid.
@@ -114,20 +117,24 @@ def get_getter_for(sid, attribute=None, config=None):
     if getter:
         return getter
 
-    getters_by_type = {
-        'project': None,
-        'asset': None,
-        'shot': None,
-        'asset__assettype': None,
-        'asset__state': None,
-        'shot__state': None,
-        # 'asset__asset': GetFromSG(),
-        # 'shot__shot': GetFromSG(),
-        # 'shot__sequence': GetFromSG(),
-        # 'shot__task': GetFromSG(),
-        # 'asset__task': GetFromSG(),
-        'default': GetFromPaths()
-    }
+    # The Getters are created once: GetFromAll groups the typed searches by Getter instance
+    # (a sorted search ">" must see all the typed searches of an expression together).
+    getters_by_type = _getters_by_type
+    if not getters_by_type:
+        getters_by_type.update({
+            'project': None,
+            'asset': None,
+            'shot': None,
+            'asset__assettype': None,
+            'asset__state': None,
+            'shot__state': None,
+            # 'asset__asset': GetFromSG(),
+            # 'shot__shot': GetFromSG(),
+            # 'shot__sequence': GetFromSG(),
+            # 'shot__task': GetFromSG(),
+            # 'asset__task': GetFromSG(),
+            'default': GetFromPaths()
+        })
 
     if sid.type in getters_by_type:
         # getter can be explicitly None
